@@ -12,4 +12,19 @@ theorem Cat.forall2_of_all {p : Cat → Cat → Bool}
     (h : Cat.all.all (fun a => Cat.all.all (p a)) = true) (a b : Cat) : p a b = true :=
   Cat.forall_of_all (Cat.forall_of_all (p := fun a => Cat.all.all (p a)) h a) b
 
+theorem lookup_mem {α β} [BEq α] [LawfulBEq α] (k : α) (l : List (α × β)) (v : β) (h : lookup k l = some v) :
+    (k, v) ∈ l := by
+  induction l with
+  | nil => simp [lookup] at h
+  | cons x xs ih =>
+    obtain ⟨k', v'⟩ := x
+    simp only [lookup] at h
+    by_cases hk : (k' == k) = true
+    · simp only [hk, if_true, Option.some.injEq] at h
+      have : k' = k := by simpa using hk
+      subst this; subst h; exact List.mem_cons_self
+    · simp only [hk] at h
+      exact List.mem_cons_of_mem _ (ih h)
+
+
 end KM
